@@ -5,7 +5,7 @@ import numpy as np
 from hypothesis import strategies as st
 
 from vlib import catalogue as cat
-from vlib.runner import SubCheck, Violation, sut
+from vlib.runner import Decoy, SubCheck, Violation, sut
 
 RECS_DETS = ("ADWIN", "ADWINAccuracy", "DDM", "EDDM", "STEPD", "LinearFourRates")
 
@@ -25,6 +25,17 @@ def check_lifecycle(case, ctx):
     with sut(detector=name):
         det = spec.make(p)
     batch = spec.family == "batch"
+
+    def _feed(d, it, k):
+        if spec.kind == "y":
+            d.update(it[1], it[0])
+        elif batch and k == 0:
+            d.set_reference(cat.as_input(spec, it))
+        else:
+            d.update(cat.as_input(spec, it))
+
+    # a second live instance of the same class on other data (the items in reverse order), interleaved
+    decoy = Decoy(lambda: spec.make(p), _feed, every=1)
     hdm = name in ("HDDDM", "CDBD")
     db = p.get("detect_batch")
     prev_state = None
@@ -70,6 +81,8 @@ def check_lifecycle(case, ctx):
         if name == "NNDVI" and not cat.nndvi_domain_ok(det, X):
             ctx.label("truncated-nndvi-domain")
             break
+        if name != "PCACD":
+            decoy.step(items[len(items) - 1 - i] if i - start else items[0], i - start)
         try:
             with sut(detector=name, allow=(ValueError,)):
                 np.random.seed(base + i)
